@@ -81,6 +81,7 @@ MIN_COUNTERS = {
     'operator_units_opcode_checked': 300, 'feature_mixed-rate-channels': 500,
     'feature_width-first-unit': 500, 'width_first_pairs_checked': 1000,
     'feature_array-control-arithmetic': 300, 'folding_agnostic_programs': 2000,
+    'feature_infinite-constant': 300, 'feature_number-channel-in-list': 300,
     'programs_compiled_after_a_width_first_definition': 1000,
 }
 
@@ -232,11 +233,15 @@ def compare(prog, d, rho, gg, oc, stats):
         return [('C01/definition-without-its-side-effect-units',
                  f'the function creates {n_eff} output / side-effecting units, '
                  f'the definition has no unit at all')]
-    bad = [c for c in d.constants if c != c or abs(c) == float('inf')]
+    src_inf = {o[1] for nd in prog['nodes'] for o in gg.operands_of(nd)
+               if o[0] == 'c' and abs(o[1]) == float('inf')}
+    bad = [c for c in d.constants
+           if c != c or (abs(c) == float('inf') and c not in src_inf)]
     if bad:
-        # no generated program contains such a constant
+        # NaN never, an infinity only where the function wrote one
         return [('C01/non-finite-constant',
-                 f'constants {d.constants} (the source has finite ones only)')]
+                 f'constants {d.constants}; infinities of the source: '
+                 f'{sorted(src_inf)}')]
     dec = DecodedEval(d, rho, gg, oc)
     if dec.structural:
         return dec.structural[:1]
@@ -304,6 +309,12 @@ def compare(prog, d, rho, gg, oc, stats):
         return dec.rate_problems[:1]
 
     # ---- diagnosis: name the mechanism --------------------------------------
+    lost_inf = [x for x in src_inf if x not in d.constants]
+    if lost_inf:
+        big = [c for c in d.constants if abs(c) > 1e38 and abs(c) != float('inf')]
+        return [('C01/infinite-constant-not-preserved',
+                 f'the function uses the constant(s) {lost_inf}; the constant '
+                 f'table has {big or "no such value"} instead')]
     known = set(_flat(src.vals))
     known.update(rho.const(c) for c in d.constants)
     known.add(0)
@@ -685,7 +696,8 @@ def run_shard(spec, acc):
         if found:
             k, (key, detail) = found
             if not key.startswith(('C01/arith-rate', 'C01/width-first',
-                                   'C01/opcode')):
+                                   'C01/opcode', 'C01/infinite-constant',
+                                   'C01/non-finite')):
                 key += mechanism_suffix(prog)
             manifestation = key
             if attributable_to_folding(prog, gg, oc, scgf,
